@@ -55,7 +55,7 @@ theorem TreeOK.index_zero {t : Tree V} (h : TreeOK t) : ∀ n, t.index.head? = s
     omega
 
 /-- what `update` guarantees -/
-structure UpdateOK (t : Tree V) (cs : List (Nat × Option (V × Bool))) (pagesOf : V → List Nat) (lnFresh : Nat → Nat)
+structure UpdateOK (t : Tree V) (cs : List (Nat × Option (V × Bool))) (pagesOf : V → List Nat) (lnFresh bbnFresh : Nat → Nat)
     (a0 : Nat) (o : UpdateOut V) : Prop where
   /-- the leaf level: `LeafUpd.runWorker`'s, holding the old content with the batch applied -/
   run : LeafUpd.runWorker LeafUpd.sepReal t.leaves cs = some (o.leafLevel, LeafUpd.ovfLog (LeafUpd.flat t.leaves) (cs.map (·.1)))
@@ -70,7 +70,7 @@ structure UpdateOK (t : Tree V) (cs : List (Nat × Option (V × Bool))) (pagesOf
   the zero key —, with the page numbers the leaf stage wrote them to -/
   level : BranchUpd.flat o.index = relabel0 (lvlEnts (lvlOf t.lpn lnFresh a0 o.leafLevel))
   /-- the index consists of the untouched nodes and the produced nodes of the branch level -/
-  index_level : ∃ bbnFresh' : Nat → Nat, o.index = idxOf bbnFresh' 0 o.branchLevel
+  index_level : o.index = idxOf bbnFresh 0 o.branchLevel
   branch_asc : OutAscB o.branchLevel
   /-- released leaf-store pages: the pages of the overflow cells whose key is in the batch, then (a permutation of) the
   pages of the old leaves that are not part of the new level -/
@@ -96,7 +96,7 @@ theorem update_spec (pagesOf : V → List Nat) (lnFresh bbnFresh : Nat → Nat) 
     (cs : List (Nat × Option (V × Bool))) (lo : Nat) (ht : TreeOK t) (hcs : LeafUpd.ChOK (2 ^ 256) lo cs)
     (ha0 : cs = [] → a0 = 0) :
     ∃ o, update LeafUpd.sepReal kfReal pagesOf lnFresh bbnFresh false t cs a0 = some o ∧
-      UpdateOK t cs pagesOf lnFresh a0 o := by
+      UpdateOK t cs pagesOf lnFresh bbnFresh a0 o := by
   have hidxasc : IdxAsc t.index := by
     have hp := BranchUpd.DbOK.pairwise ht.index
     have hall := BranchUpd.DbOK.oldOK ht.index
@@ -129,7 +129,7 @@ theorem update_spec (pagesOf : V → List Nat) (lnFresh bbnFresh : Nat → Nat) 
     obtain ⟨rfl, rfl⟩ := erun
     have hoasc : OutAsc (t.leaves.map OutLeaf.old) := by
       unfold OutAsc; rw [List.pairwise_map]; exact (List.pairwise_map).1 hsasc
-    refine ⟨by simp [LeafUpd.ovfLog_nil_keys]; rfl, hcontent, hoasc, hnews, ?_, hchain, ht.index, ?_, ⟨bbnFresh, ?_⟩, ?_,
+    refine ⟨by simp [LeafUpd.ovfLog_nil_keys]; rfl, hcontent, hoasc, hnews, ?_, hchain, ht.index, ?_, ?_, ?_,
       ⟨[], by simp [LeafUpd.ovfLog_nil_keys], ?_⟩, ?_, by simp [newsOf_old], by simp [newsOfB_old]⟩
     · intro l hl
       obtain ⟨y, hy, e⟩ := List.mem_map.1 hl
@@ -173,7 +173,7 @@ theorem update_spec (pagesOf : V → List Nat) (lnFresh bbnFresh : Nat → Nat) 
       refine ⟨_, hres, ?_⟩
       have hlevel := hl.level
       rw [hlcs] at hlevel
-      refine ⟨hl.run, hl.content, hl.asc, hl.news, hl.olds, hl.chain, ht.index, ?_, ⟨bbnFresh, ?_⟩, ?_, hl.freed, ?_,
+      refine ⟨hl.run, hl.content, hl.asc, hl.news, hl.olds, hl.chain, ht.index, ?_, ?_, ?_, hl.freed, ?_,
         hl.allocs, by simp [newsOfB_old]⟩
       · rw [hlvl0, ← hlevel]; rfl
       · show t.index = idxOf bbnFresh 0 (t.index.map OutNode.old)
@@ -196,7 +196,7 @@ theorem update_spec (pagesOf : V → List Nat) (lnFresh bbnFresh : Nat → Nat) 
                  postIo := lo'.postIo, leafLevel := lo'.level, branchLevel := bo.level } := by
         simp only [update, hcsne, Bool.false_eq_true, if_false, hleaf, hbranch]
       refine ⟨_, hres, ?_⟩
-      refine ⟨hl.run, hl.content, hl.asc, hl.news, hl.olds, hl.chain, hbok, ?_, ⟨bbnFresh, hbidx⟩, hbasc, hl.freed,
+      refine ⟨hl.run, hl.content, hl.asc, hl.news, hl.olds, hl.chain, hbok, ?_, hbidx, hbasc, hl.freed,
         hbfreed, hl.allocs, hballoc⟩
       rw [hbflat, hlvl0, hl.level]
 
